@@ -3,6 +3,7 @@ package colsim
 import (
 	"errors"
 	"fmt"
+	"sort"
 	"time"
 
 	"github.com/kelindar/column"
@@ -175,6 +176,82 @@ func (x *txnCtx) resolve(t Target) (uint32, bool) {
 	return live[k], true
 }
 
+// freeOffset picks an offset of an existing block that holds no committed row: one
+// reserved by somebody else's in-flight insert, or the lowest free one (which the next
+// insert will be handed).
+func (x *txnCtx) freeOffset(k int) (uint32, bool) {
+	m := x.w.model
+	top := uint32(0)
+	for o := range m.Rows {
+		if o>>14 > top {
+			top = o >> 14
+		}
+	}
+	var cand []uint32
+	for o, by := range m.Reserved {
+		if by != x.thread && o>>14 <= top {
+			cand = append(cand, o)
+		}
+	}
+	sort.Slice(cand, func(i, j int) bool { return cand[i] < cand[j] })
+	for o := uint32(0); o>>14 <= top; o++ {
+		_, live := m.Rows[o]
+		_, res := m.Reserved[o]
+		if !live && !res {
+			cand = append(cand, o)
+			break
+		}
+	}
+	for _, o := range x.mine {
+		for i := 0; i < len(cand); i++ {
+			if cand[i] == o {
+				cand = append(cand[:i], cand[i+1:]...)
+				i--
+			}
+		}
+	}
+	if len(cand) == 0 {
+		return 0, false
+	}
+	return cand[k%len(cand)], true
+}
+
+// checkAbsentAt runs inside a point read positioned on an offset chosen because it held no
+// committed row. The callback holds the block's read latch, so no commit can be applied to
+// the block while it runs: if the offset holds no row when the callback starts, it shows
+// nothing in any column, no insert can be committed onto it before the callback returns, and
+// it still shows nothing after the scheduler had the chance to run such a commit.
+func (x *txnCtx) checkAbsentAt(r column.Row, off uint32) {
+	w := x.w
+	if _, live := w.model.Rows[off]; live {
+		x.checkRow(r, off, true) // occupied meanwhile (before the latch was taken): an ordinary point read
+		return
+	}
+	pass := func(sig, what string) bool {
+		for _, col := range w.model.Cols {
+			if col.Kind == KKey {
+				continue
+			}
+			w.stats.Reads++
+			if v, ok := readCol(x.txn, r, col, flRow); ok && !(col.Kind == KBool && v.U == 0) {
+				w.fail(violation(sig+"/"+string(col.Kind), "offset %d holds no committed row, yet a point read positioned on it %s %s in column %q", off, what, v.show(col.Kind), col.Name))
+				return false
+			}
+		}
+		return true
+	}
+	w.stats.probe("point-read-on-an-offset-without-a-row")
+	if !pass("stale-on-insert", "shows") {
+		return
+	}
+	w.sim.Yield(ptInRead)
+	if _, live := w.model.Rows[off]; live {
+		w.fail(violation("torn-read/commit-beside-positioned-reader", "an insert was committed onto offset %d while a point read positioned on that offset held the block", off))
+		return
+	}
+	pass("torn-read/absent-row", "shows, after having shown nothing,")
+}
+
 func (x *txnCtx) execOp(op *Op) {
 	w := x.w
 	switch op.Kind {
@@ -236,6 +313,17 @@ func (x *txnCtx) execOp(op *Op) {
 			return nil
 		})
 		if err != nil {
+			w.fail(violation("query-result", "QueryAt returned %v", err))
+		}
+	case "atfree":
+		off, ok := x.freeOffset(op.Target.K)
+		if !ok {
+			return
+		}
+		if err := x.txn.QueryAt(off, func(r column.Row) error {
+			x.checkAbsentAt(r, off)
+			return nil
+		}); err != nil {
 			w.fail(violation("query-result", "QueryAt returned %v", err))
 		}
 	case "ghostonly":
